@@ -5,6 +5,7 @@ import (
 	"fmt"
 	"os"
 	"os/exec"
+	"path/filepath"
 	"strings"
 
 	simrt "verif.local/simrt"
@@ -80,6 +81,7 @@ func (c *c03) Stats() map[string]any {
 	cr, rr := simrt.ClockStats()
 	return map[string]any{
 		"executions": c.st.Exec, "comparisons": c.st.Compared, "env_with_history": c.st.EnvHistory, "env_with_companions": c.st.EnvCompanions,
+		"forced_garbage_collections": simrt.ForcedGCs, "directory_listings_reordered": simrt.DirListingsReordered,
 		"env_fresh_process": c.st.EnvFresh, "accepted": c.st.Accepted, "rejected": c.st.Rejected, "multi_fault_docs": c.st.MultiFaultDocs,
 		"comparisons_with_consumed_nondefault_decision": c.st.NonDefault,
 		"map_sites":   ms,
@@ -169,7 +171,11 @@ func (c *c03) genProject(r *rng) (Project, bool) {
 	}
 	rs := *r // the twin is generated from the same PRNG state
 	d := generateDoc(r, cfg)
-	single, mp, _ := cutProject(d, r, "/sim/proj/api", 3)
+	depth := 3
+	if cfg.LateFaults > 0 {
+		depth = 5 // faults that are reported after scanning, from files several includes deep
+	}
+	single, mp, _ := cutProject(d, r, "/sim/proj/api", depth)
 	if cfg.EnumMismatch == 1 {
 		cfg2 := cfg
 		cfg2.EnumMismatch = 2
@@ -180,7 +186,7 @@ func (c *c03) genProject(r *rng) (Project, bool) {
 		lastTwin = &t
 		return single, multi
 	}
-	if r.chance(500) {
+	if r.chance(500) && !(cfg.LateFaults > 0 && len(mp.Files) >= 4) {
 		return single, multi
 	}
 	if r.chance(150) {
@@ -193,7 +199,19 @@ func (c *c03) genProject(r *rng) (Project, bool) {
 			}
 		}
 		if len(inc) > 0 {
-			delete(mp.Files, inc[r.n(len(inc))])
+			gone := inc[r.n(len(inc))]
+			body := mp.content(gone)
+			delete(mp.Files, gone)
+			if r.chance(500) {
+				// ... but files whose names differ from it only in letter case are (two of them, with
+				// different content): no business of this project
+				dir, base := filepath.Dir(gone), filepath.Base(gone)
+				up, tg := strings.ToUpper(base), toggleCase(base)
+				if up != base && tg != base && up != tg {
+					mp.set(filepath.Join(dir, up), body)
+					mp.set(filepath.Join(dir, tg), []byte("TAG @fromTwin\n"))
+				}
+			}
 		}
 	}
 	return mp, multi
@@ -231,6 +249,10 @@ func (c *c03) DumpCase(seed uint64, idx int) []Case {
 		if e >= 1 {
 			a.Env.ReadOrder = r.n(len(readOrders))
 			a.Env.CwdShadow = r.chance(300)
+			a.Env.ReuseInput = r.chance(200)
+			if r.chance(150) || (len(p.Files) >= 4 && r.chance(300)) {
+				a.Env.GCEvery = []int{500, 3000, 20000}[r.n(3)]
+			}
 		}
 		if e == 2 || (e > 2 && r.chance(250)) {
 			for k := 1 + r.n(3); k > 0; k-- {
@@ -337,6 +359,14 @@ func (c *c03) runAlt(cs *Case, a *altEnv, forced []simrt.Decision) (Result, []si
 		c.st.Exec++
 		// every environment draws from its own PRNG stream (scheduling of goroutines that the
 		// library itself starts, shuffles, pool choices)
+		if a.Env.ReuseInput && cs.Opts.Entry == "file" {
+			var buf []byte
+			sharedRootBuffer = &buf
+			defer func() { sharedRootBuffer = nil }()
+			c.st.Exec++
+			execute(p, cs.Opts, a.Env, nil, cs.Seed+77, nil)
+			simrt.KeepPoolsOnce()
+		}
 		r, _, dec := execute(p, cs.Opts, a.Env, nil, cs.Seed+1+uint64(a.Env.RandSeed)*7919+uint64(a.Env.MapPolicy), forced)
 		return r, dec
 	}
@@ -364,6 +394,7 @@ func executeConcurrent(ps []*Project, o Opts, env Env, seed uint64, forced []sim
 	simrt.SetPoolPolicy(env.PoolPolicy, env.PoolDrop)
 	simrt.SetClock(1_700_000_000+env.ClockStart, env.RandSeed)
 	curReadOrder = env.ReadOrder
+	simrt.SetGCEvery(uint64(env.GCEvery))
 	simrt.SetSchedPolicy(stayPm, -1, 0, 0)
 	d := mountProject(ps[0], env, nil)
 	total := uint64(0)
@@ -599,6 +630,24 @@ func (c *c03) attribute(cs *Case, a *altEnv, ref *Result, what string) string {
 			}
 		}
 	}
+	if a.Env.ReuseInput && cs.Opts.Entry == "file" {
+		b := altEnv{Env: refEnv}
+		b.Env.ReuseInput = true
+		if got, _ := c.runAlt(cs, &b, nil); got.Panic == "" {
+			if same, _ := ref.Same(&got); !same {
+				return "input-buffer-reuse"
+			}
+		}
+	}
+	if a.Env.GCEvery != 0 {
+		e := refEnv
+		e.GCEvery = a.Env.GCEvery
+		if got, _, _ := execute(&cs.Project, cs.Opts, e, nil, cs.Seed, nil); got.Panic == "" {
+			if same, _ := ref.Same(&got); !same {
+				return "garbage-collection-timing"
+			}
+		}
+	}
 	if a.Env.CwdShadow {
 		e := refEnv
 		e.CwdShadow = true
@@ -636,6 +685,16 @@ func (c *c03) attribute(cs *Case, a *altEnv, ref *Result, what string) string {
 	// with companions: does the schedule alone (reference map order, most-recent pool) reproduce it?
 	if comp && differs(zeroExcept(func(d simrt.Decision) bool { return d.K == simrt.KSched }), false, true) {
 		return "schedule"
+	}
+	// the order in which opened directories list their entries
+	hasDir := false
+	for _, d := range a.Decisions {
+		if d.K == simrt.KDirOrder && d.C != 0 {
+			hasDir = true
+		}
+	}
+	if hasDir && differs(zeroExcept(func(d simrt.Decision) bool { return d.K == simrt.KDirOrder || (comp && d.K == simrt.KSched) }), false, comp) {
+		return "directory-listing-order"
 	}
 	// map order: the minimal set of sites whose non-default order is needed (greedy elimination)
 	mapOnly := func(sites map[int32]bool) []simrt.Decision {
